@@ -40,7 +40,7 @@ ULtFrom(a, b, i) ==
     ELSE IF a[i] > b[i] THEN FALSE
     ELSE ULtFrom(a, b, i - 1)
 ULt(a, b) == IF Len(a) # Len(b) THEN Len(a) < Len(b) ELSE ULtFrom(a, b, Len(a))
-ULeq(a, b) == a = b \/ ULt(a, b)
+ULeq(a, b) == IF a = b THEN TRUE ELSE ULt(a, b)
 UMin(a, b) == IF ULeq(a, b) THEN a ELSE b
 UMax(a, b) == IF ULeq(a, b) THEN b ELSE a
 
